@@ -564,9 +564,9 @@ func (x *Explorer) newVar(kind, tag string, s Sort, vs []uint64) *Term {
 	}
 	if x.model != nil {
 		if vs != nil && len(vs) > 0 {
-			x.model[name] = vs[0]
+			x.model[t.name] = vs[0]
 		} else {
-			x.model[name] = 0
+			x.model[t.name] = 0
 		}
 	}
 	return t
